@@ -43,6 +43,9 @@ pub struct SvcIdentity {
     /// too): it proved to be that identity, nothing about X
     #[serde(default)]
     pub same_socket_sessions: Vec<(u8, bool)>,
+    /// members that complete another (valid) handshake while already connected: (member index, incoming)
+    #[serde(default)]
+    pub again: Vec<(u8, bool)>,
 }
 
 async fn run_svc_identity(c: &SvcIdentity, rep: &mut CaseReport) -> Option<(String, String)> {
@@ -65,7 +68,8 @@ async fn run_svc_identity(c: &SvcIdentity, rep: &mut CaseReport) -> Option<(Stri
     s.take_outbox();
     s.take_events();
     let snapshot = |s: &Svc| -> Vec<(ids::Id, u64, String)> {
-        let mut v: Vec<(ids::Id, u64, String)> = s.d.table_entries().into_iter().map(|(id, enr, st)| (id.raw(), enr.seq(), format!("{st:?}"))).collect();
+        // (the status string carries the id the stored RECORD belongs to: it must be the entry's own)
+        let mut v: Vec<(ids::Id, u64, String)> = s.d.table_entries().into_iter().map(|(id, enr, st)| (id.raw(), enr.seq(), format!("{st:?} record-of-{}", ids::hex_id(&enr.node_id().raw())))).collect();
         v.sort();
         v
     };
@@ -131,6 +135,28 @@ async fn run_svc_identity(c: &SvcIdentity, rep: &mut CaseReport) -> Option<(Stri
             ));
         }
         rep.class("service-companion/unverifiable-report-with-a-third-node's-record");
+        rep.nontrivial = true;
+    }
+    for (ai, incoming) in c.again.iter().take(6) {
+        let a = members[*ai as usize % members.len()];
+        let aid = keys::id_of(a);
+        let before = snapshot(&s);
+        s.inject(HandlerOut::Established(shaped_record(a, 1, Shape::V4), svc_addr4(a), if *incoming { Dir::Incoming } else { Dir::Outgoing })).await;
+        let after = snapshot(&s);
+        s.take_events();
+        s.take_outbox();
+        for b in &before {
+            if b.0 == aid {
+                continue;
+            }
+            if after.iter().find(|x| x.0 == b.0) != Some(b) {
+                return Some((
+                    "identity/table-entry-of-a-third-node-changed".into(),
+                    format!("node {} (already connected) completed another handshake; the routing-table entry of node {} changed from ({}, {}) to {:?}", ids::hex_id(&aid), ids::hex_id(&b.0), b.1, b.2, after.iter().find(|x| x.0 == b.0).map(|x| (x.1, x.2.clone()))),
+                ));
+            }
+        }
+        rep.class("service-companion/connected-member-handshakes-again");
         rep.nontrivial = true;
     }
     for (j, (xi, incoming)) in c.same_socket_sessions.iter().take(4).enumerate() {
@@ -454,8 +480,9 @@ impl Property for C01 {
             proptest::collection::vec((any::<u8>(), 0u8..4, prop_oneof![4 => Just(false), 1 => Just(true)]), 1..8),
             proptest::collection::vec((any::<u8>(), any::<u8>()), 0..3),
             proptest::collection::vec((any::<u8>(), any::<bool>()), 0..3),
+            proptest::collection::vec((any::<u8>(), any::<bool>()), 0..6),
         )
-            .prop_map(|(cfg, peers, probes, foreign_reports, same_socket_sessions)| Case { cfg, ops: vec![], svc: Some(SvcIdentity { peers, probes, foreign_reports, same_socket_sessions }) });
+            .prop_map(|(cfg, peers, probes, foreign_reports, same_socket_sessions, again)| Case { cfg, ops: vec![], svc: Some(SvcIdentity { peers, probes, foreign_reports, same_socket_sessions, again }) });
         prop_oneof![60 => wire, 1 => companion].boxed()
     }
     fn run(case: &Case) -> CaseReport {
